@@ -101,7 +101,15 @@ def _shipped(case):
                "cavityqed": DispersiveCavityQED, "scqubits": SCQubits}[dev]
         _DEV[key] = cls(nq)
     proc = _DEV[key]
-    comp = proc._default_compiler(proc.num_qubits, proc.params)
+    from qutip_qip.compiler import SpinChainCompiler, CavityQEDCompiler, SCQubitsCompiler
+    if dev == "spinchain":
+        comp = SpinChainCompiler(proc.num_qubits, proc.params, setup="linear")
+    elif dev == "circular":
+        comp = SpinChainCompiler(proc.num_qubits, proc.params, setup="circular")
+    elif dev == "cavityqed":
+        comp = CavityQEDCompiler(proc.num_qubits, proc.params, global_phase=0.0)
+    else:
+        comp = SCQubitsCompiler(proc.num_qubits, proc.params)
     gates = [_mk_gate(g) for g in case["gates"]]
     args = {"shape": case.get("shape", "rectangular"), "num_samples": case.get("num_samples")}
     return comp, gates, args
@@ -449,6 +457,8 @@ def near_threshold(specs, starts, order):
                 return True
             last = F(w["s"]) + F(w["ts"][-1])
         lasts.append(last)
+    if not lasts:
+        return False
     final = max(lasts)
     for last in lasts:
         if near(final - last, ms * TOL):
@@ -466,6 +476,16 @@ def classify(failure):
     kind = obs.get("kind")
     case = failure.get("input") or {}
     starts, specs = obs.get("starts"), obs.get("specs")
+    if kind == "overlap" and case.get("mode") in ("ASAP", "ALAP") and starts is not None and specs is not None:
+        # class scheduler-overlap-c11: the scheduler's own start times overlap on this channel
+        try:
+            ws = sorted(windows(specs, starts)[obs["channel"]], key=lambda w: w["s"])
+        except Exception:
+            return None
+        for a, b in zip(ws, ws[1:]):
+            if Fraction(a["s"]) + Fraction(a["ts"][-1]) > Fraction(b["s"]):
+                return "scheduler-overlap-c11"
+        return None
     if kind == "zero" and starts is not None and specs is not None and "t" in obs:
         # class idle-gap-below-tolerance: the failing time lies in an idle gap (0 < gap <= 1e-6 * step of the
         # instruction that follows the gap) on a discrete channel
@@ -695,6 +715,10 @@ def correspond(ctx):
     corr = Corr(rule="nontrivial = the instruction list is accepted and has >= 2 instructions on one channel, or an idle gap, "
                      "or more than one channel (so that concatenation, idle filling or final padding actually runs)")
     rng = ctx.rng
+    try:
+        from qutip_qip.compiler import GateCompiler, Instruction, Scheduler  # noqa: F401
+    except Exception as e:
+        raise Broken("correspondence:C12:import", repr(e))
     cases = list(corpus_cases())
     n_corpus = len(cases)
     plan = [("discrete", ctx.n(150, 1500)), ("continuous", ctx.n(110, 1100)), ("perqubit", ctx.n(70, 700)),
@@ -714,9 +738,7 @@ def correspond(ctx):
         specs, starts, order = real["specs"], real["starts"], real["order"]
         flavor = case.get("flavor", "corpus")
         if specs is None:
-            corr.tally("skipped:instruction-extraction-failed")
-            ctx.notes.append("instruction extraction failed: " + real.get("aux_error", "?"))
-            continue
+            raise Broken("correspondence:C12:instruction-extraction", real.get("aux_error", "?") + " on " + json.dumps(case)[:500])
         if starts is None:
             # instruction construction failed on the independent side too (malformed) or empty list
             starts, order = [0.0] * len(specs), list(range(len(specs)))
